@@ -541,6 +541,8 @@ package main
 //@   assigns decUseNumber, decFailed, decPos
 //@   allocs Mem:OMap, Arr:Val, Arr:Int
 //@   ensures object-or-error: (result0 == nil) == (result1 != nil)
+//@   snapshot_after encoding/json.NewDecoder#1 D:Int := result
+//@   ensures a-line-is-accepted-only-if-nothing-follows-the-document {C06,C07,C03}: implies(result1 == nil, atEnd(D, decPos[D]))
 //@   ensures fresh-map: implies(result1 == nil, result0 > old(heapTop) && result0 <= heapTop && !isTable(result0))
 
 //@ func redactArrayValuesWithKey
